@@ -280,7 +280,7 @@ func (r *Runner) ObserveAPI(h uint32, hashes []string, addrs []string, heights [
 	}
 	o.Rich = []APIRich{}
 	for i, t := range r.Chain.Scn.Assets {
-		if i >= 6 {
+		if i >= 8 {
 			break
 		}
 		cnt := 2 + (int(h)+i)%4
@@ -299,6 +299,7 @@ func (r *Runner) ObserveAPI(h uint32, hashes []string, addrs []string, heights [
 		}
 		o.Rich = append(o.Rich, rl)
 	}
+	r.Call("get-global-rich-list", map[string]interface{}{"count": 5}, nil) // answered or refused; must not disturb anything
 	var bank struct {
 		Height       int32
 		BankAmount   int64
